@@ -50,9 +50,15 @@ CLI: c06_scale.py [--seed S] [--n N] [--thorough]
 import argparse
 import json
 import random
+import re
 import sys
 
-from harness.agents import c06_edge as E
+try:
+    from harness.agents import c06_edge as E
+except ImportError:          # run as a script: /verif is not on the path yet
+    import os
+    sys.path.insert(0, os.path.dirname(os.path.dirname(os.path.dirname(os.path.abspath(__file__)))))
+    from harness.agents import c06_edge as E
 
 DEFAULT_DRIVER = "/verif/lean/.lake/build/bin/jaqal-model"
 ORACLES = ("front_end_accepts_valid_chain", "resolve_qubit_index", "used_qubits_index", "fill_in_map_index",
@@ -61,8 +67,14 @@ EMU_MAX = 14
 CHAIN_HEAVY = 130          # beyond this depth only the consumers that cost linear time are called
 
 
+_RUN = re.compile(r"((?:[A-Za-z_]\.?){1,2}?)\1{11,}")
+
+
 def short(x, k=400):
-    return E.short(x, k)
+    """JSON / text cut to k characters, long runs inside identifiers and long numbers abbreviated"""
+    s = x if isinstance(x, str) else json.dumps(x, default=str)
+    s = _RUN.sub(lambda m: f"{m.group(1)}<x{len(m.group(0)) // len(m.group(1))}>", s)
+    return E.short(s, k)
 
 
 # ------------------------------------------------------------------------------------------------------------------
@@ -209,6 +221,13 @@ def valid(pm, override=None):
         mt = macro_table(pm)
         for s in pm["body"]:
             ops_of(s, {}, den, mt, False, [])
+        for _, params, kind, body in pm["macros"]:          # literal references in bodies that are never called
+            if len(set(params)) != len(params):
+                return False
+            for g in flat_my([kind, body], []):
+                for a in g[2]:
+                    if not involves(a, set(params)):
+                        ground(a, {}, den)
         return True
     except (Invalid, KeyError):
         return False
@@ -327,12 +346,12 @@ MARKS = [0, 1, 7, 8, 9, 15, 16, 17, 31, 32, 33, 48, 49, 63, 64, 65, 66, 99, 100,
          511, 512, 999, 1000]
 SIZES = {
     "chain": [65, 8, 130, 16, 66, 32, 64, 100, 33, 128, 63, 257, 129, 17, 9, 127, 31, 256, 15, 7, 200, 70, 255],
-    "lets": [49, 64, 100, 256, 65, 1000, 8, 16, 32, 128, 63, 257, 33, 129, 255],
-    "aliases": [49, 64, 100, 256, 65, 1000, 8, 16, 32, 128, 63, 257, 33, 129, 255],
-    "qubits": [10, 14, 7, 12, 8, 11, 13, 9],
-    "statements": [200, 256, 1000, 34, 64, 128, 8, 16, 32, 65, 129, 257, 255, 33, 100],
+    "lets": [64, 256, 1000, 49, 100, 65, 128, 257, 32, 16, 8, 63, 33, 129, 255],
+    "aliases": [65, 257, 1000, 49, 100, 64, 129, 256, 33, 17, 9, 63, 32, 128, 255],
+    "qubits": [14, 12, 10, 13, 7, 11, 8, 9],
+    "statements": [256, 1000, 200, 64, 128, 34, 65, 257, 129, 32, 16, 8, 255, 33, 100],
     "nest": [16, 20, 32, 40, 64, 128, 8, 33, 65, 100, 129, 150, 17, 9],
-    "macros": [33, 65, 100, 8, 16, 32, 64, 128, 49, 256, 17, 9, 129, 63],
+    "macros": [33, 65, 100, 8, 16, 32, 64, 128, 49, 130, 17, 9, 129, 63],      # (breadth: twice as many)
     "names": [1, 2, 3, 255, 256, 257, 300, 1000, 4, 5, 6, 7],
     "options": list(range(64)),
 }
@@ -347,8 +366,9 @@ KINDS = {
     "names": ["fam", "dunder", "kw", "long", "mix"],
     "options": ["x"],
 }
-SCHEDULE = ["chain", "lets", "nest", "chain", "aliases", "macros", "names", "chain", "statements", "options", "qubits",
-            "chain", "names", "macros", "options", "nest"]
+SCHEDULE = ["chain", "lets", "nest", "aliases", "names", "statements", "chain", "options", "macros", "lets", "qubits",
+            "aliases", "chain", "names", "statements", "options", "nest", "lets", "chain", "macros", "aliases", "names",
+            "statements", "options", "qubits"]
 OV_KINDS = ["absent", "none", "empty", "same", "changed", "changed_float", "changed_np"]
 RUN_KINDS = ["default", "backend", "emulator_backend", "force_sim"]
 PD_KINDS = ["absent", "false", "true", "kw"]
@@ -535,7 +555,9 @@ def add_item(b, rng, den, cands, wrap=None):
         b.macros.append([name, params, "seq", stmts])
         if wrap == "macro_nq":
             outer = b.name("macro")
-            ops = [b.name("param", avoid | set(params)) for _ in params]
+            ops = []
+            for _ in params:
+                ops.append(b.name("param", avoid | set(params) | set(ops)))
             # (the outer parameters reuse the inner names in another order where possible)
             if len(params) > 1 and rng.random() < 0.5:
                 ops = params[1:] + params[:1]
@@ -812,6 +834,7 @@ def fam_macros(b, rng, D, kind):
     den = Den(b.pm(False))
     regs = [a2, a2, a]
     if kind == "breadth":
+        D = 2 * D
         marks = near(D, MARKS + [D - 1])
         called = set(rng.sample(marks, min(len(marks), 4)) + [rng.randrange(D)])
         calls = []
@@ -856,7 +879,7 @@ def fam_macros(b, rng, D, kind):
         tag = (lambda j: "i") if kind == "chain_i" else (lambda j: "i" if kind == "chain_r" and j % 2 else "n")
         call = ["gate", f"M{lvl - 1}", [[tag(j), ps[sh[j]]] for j in range(width)]]
         stmts = [call]
-        if rng.random() < 0.1:
+        if D <= 70 and rng.random() < 0.1:          # (deeper chains stay below the interpreter's recursion limit)
             stmts = [["loop", 1, ["seq", [call]]]]
         b.macros.append([f"M{lvl}", ps, "seq", stmts])
         perm = _compose(perm, sh)
@@ -1025,7 +1048,7 @@ def mk_opts(desc, b, pm, rng):
             o.update(parse=None, fil=None, pipeline=False, run_it=False)
             pm["emulate"] = False
         elif size > 70 and not thorough:
-            keep = rng.choice(["run", "fil", "parse", "pipeline", "run", "none"])
+            keep = rng.choice(["run", "fil", "parse", "pipeline", "run", "none"] + (["none"] * 4 if size > 100 else []))
             o["run_it"] = keep == "run"
             if keep != "fil":
                 o["fil"] = None
@@ -1082,7 +1105,8 @@ def ov_call(L, kind, pm, override):
     if kind == "same":
         return {"override_dict": {n: v for n, v in pm["lets"][:40]}}, None
     conv = {"changed": int, "changed_float": float, "changed_np": np.int64}[kind]
-    return {"override_dict": {k: conv(v) for k, v in override.items()}}, dict(override)
+    # (a double / an int64 holds the value exactly, or the plain integer is handed over)
+    return {"override_dict": {k: conv(v) if abs(v) < 2**53 else v for k, v in override.items()}}, dict(override)
 
 
 def involves(a, params):
@@ -1435,7 +1459,7 @@ def run(seed: int, n: int, driver: str = DEFAULT_DRIVER, thorough: bool = False)
     if thorough or "pygsti" in sys.modules:
         E.load_label()
     if thorough:
-        n = n * 6
+        n = n * 5
     oracle = {k: {"cases": 0, "failures": [], "total": 0} for k in ORACLES}
     dist, samples, distinct = {}, [], set()
 
@@ -1482,7 +1506,7 @@ def replay(case: dict, driver: str = DEFAULT_DRIVER) -> dict:
 def main():
     ap = argparse.ArgumentParser()
     ap.add_argument("--seed", type=int, default=0)
-    ap.add_argument("--n", type=int, default=160)
+    ap.add_argument("--n", type=int, default=48)
     ap.add_argument("--thorough", action="store_true")
     a = ap.parse_args()
     res = run(a.seed, a.n, thorough=a.thorough)
